@@ -328,6 +328,52 @@ func runC08(c *Ctx) {
 	c.Expect("C08-R3", "checkWriter literals", lits, 2)
 	c.Expect("C08-R3", "write-open/rename sites in package blob", writers, 3)
 
+	// closed inventory of file-system effects in the package (call level)
+	c.Rule("C08-R6", "closed inventory of file-system effects in package blob: the only calls that create, extend, rename or modify files are the audited ones (a file reaches its expected size only through the hash-checked writer: no preallocation, no direct writes, no Truncate(n>0)); and copyNamedFile opens an existing longer file with O_TRUNC so that no stale tail survives a rewrite")
+	effectInventory(c, "C08-R6", c.P.FuncsOf(blobPkg), map[string]map[string]int{
+		"Open":                    {"os.MkdirAll": 2},
+		"DiskCache.Import":        {"os.CreateTemp": 1, "io.Copy(dst *os.File)": 1, "os.Rename": 1, "os.Chtimes": 1},
+		"DiskCache.Link":          {"os.MkdirAll": 1},
+		"DiskCache.copyNamedFile": {"os.OpenFile(write)": 1, "os.Chtimes": 1},
+		"DiskCache.Chunked":       {"os.OpenFile(write)": 1},
+		"Chunker.Put":             {"io.NewOffsetWriter": 1},
+	})
+	if f := c.Fn("C08-R6", blobPkg, "DiskCache.copyNamedFile"); f != nil {
+		g := c.G(f)
+		for _, op := range g.FindCalls("os.OpenFile") {
+			call := op.Node.(*ast.CallExpr)
+			ok := false
+			hasTrunc := func(n ast.Node) bool {
+				t := false
+				ast.Inspect(n, func(m ast.Node) bool {
+					if se, isSel := m.(*ast.SelectorExpr); isSel && se.Sel.Name == "O_TRUNC" {
+						t = true
+					}
+					return true
+				})
+				return t
+			}
+			if hasTrunc(call.Args[1]) {
+				ok = true
+			} else if id, isID := ast.Unparen(call.Args[1]).(*ast.Ident); isID {
+				sizeParam := paramObj(f, "size")
+				for _, as := range g.AssignsTo(info.Uses[id]) {
+					if !hasTrunc(as.Node) || !g.Dominates(as.Loc, op.Loc) && !g.Reaches(as.Loc, op.Loc) {
+						continue
+					}
+					for _, a := range g.AtomsAt(as.Loc) {
+						if be, isB := ast.Unparen(a.Expr).(*ast.BinaryExpr); isB && sizeParam != nil && core.UsesObj(info, be.Y, sizeParam) &&
+							len(core.CallsTo(info, be.X, false, "io/fs.FileInfo.Size")) == 1 &&
+							((be.Op == token.GTR || be.Op == token.NEQ || be.Op == token.GEQ) && a.Val) {
+							ok = true
+						}
+					}
+				}
+			}
+			c.Check("C08-R6", f.Key()+" open truncates a longer existing file", c.Pos(call), ok, "when the existing file is longer than the expected size the write-open must carry O_TRUNC, otherwise the old tail survives (Resolve then hashes new bytes + stale tail)")
+		}
+	}
+
 	// ---------------------------------------------------------------- R4
 	c.Rule("C08-R4", "Link copies the manifest only after successfully opening the blob file of the digest being linked and passes that file and its size; Resolve stores and returns the digest that readAndSum computed from the very bytes it stores; Import renames only after the hash and the size test")
 	if f := c.Fn("C08-R4", blobPkg, "DiskCache.Link"); f != nil {
